@@ -291,7 +291,7 @@ func ParentMain(o RunOpts) int {
 		lf, _ := os.Create(logPath)
 		cmd.Stdout = lf
 		cmd.Stderr = lf
-		cmd.Env = append(os.Environ(), "GORACE=halt_on_error=0 log_path="+filepath.Join(dir, name+".race"), "GOTRACEBACK=all")
+		cmd.Env = append(os.Environ(), "GORACE=halt_on_error=0 exitcode=0 log_path="+filepath.Join(dir, name+".race"), "GOTRACEBACK=all")
 		cmd.SysProcAttr = &syscall.SysProcAttr{Setpgid: true}
 		if err := cmd.Start(); err != nil {
 			fmt.Fprintln(os.Stderr, "start worker:", err)
@@ -397,8 +397,8 @@ func ParentMain(o RunOpts) int {
 	broken := []string{}
 	classes := map[string]int{}
 	report := func(idx int, v Violation) {
-		if v.Kind == "harness-panic" {
-			broken = append(broken, fmt.Sprintf("harness panic at case %d: %s", idx, oneLine(v.Msg, 200)))
+		if v.Kind == "harness-panic" || v.Kind == "harness-broken" {
+			broken = append(broken, fmt.Sprintf("%s at case %d: %s", v.Kind, idx, oneLine(v.Msg, 300)))
 			writeReplay(o, idx, v)
 			return
 		}
